@@ -24,6 +24,9 @@ CLAIMED = {
             "the objectives' definitions and with the name dispatch; CFG/guard analysis of the DP (memo overwrite "
             "guard and tuple layout, sieve skip, early exits, outer-product flag); partial evaluation of the "
             "bipartition range expressions; must-pass-through of the cap widening"),
+    "C10": ("4 C10", "typestate of the depth-first traversal's ready set and guard of its yield; sibling cross-check of the "
+            "recycled-id protocol (descending removal, positions before removal, append) over every pop/append loop; "
+            "CFG pairing of single-assignment id counters with their uses; linear-form check of get_ssa_path's id"),
     "C13": ("4 C13", "cache-key completeness/injectivity by def-use dependence, sibling TypeError fallback, purity and "
             "result-immutability of lru_cached parsers, array-taint of cached callables"),
     "C14": ("4 C14", "fingerprint determinism/coverage by dependence analysis, cache policy as CFG path properties, "
@@ -52,6 +55,7 @@ LEVEL_TEXT = {
     "C07": "forbidden indices are excluded on every path, whatever search() returns passes the unscaled target filter, the cost model slices only indices it knows against its own baseline; equality of predicted and real costs is not decided",
     "C08": "the returned trial is the arg-min of the recorded scores on every schedule (each reported trial is compared, guarded update, once-per-trial bookkeeping) and recorded costs are refreshed after every in-place post-processing; cost values are not decided",
     "C09": "necessary conditions of optimality only: each objective name is minimised with a step cost whose derived signature equals the objective's definition, the per-subgraph memo keeps the better entry, the sieve skips only on the new score against a cap that grows every round, every bipartition size is enumerated, search_outer is honoured; that the result is the global minimum is NOT decided",
+    "C10": "conventions only: every emitted path is produced children-first, every implementation of the recycled-id format removes operands in descending order and appends the result, every single-assignment id counter starts at the number of inputs and advances once per emitted step on every path; equality of round trips is NOT decided",
     "C13": "cache keys are complete and injective, memoised functions pure, cached callables stateless — for every cache site and call site in the package; numeric equality of cached and uncached results is not decided",
     "C14": "fingerprints are deterministic, covering and position-preserving, and the lookup/run/overwrite policy holds on every CFG path of the reusable optimizer; that a rebuilt tree equals the searched one is not decided",
     "C15": "no kill point can leave a partial file under an entry name because every durable write is temp-sibling + close + atomic replace, and a corrupt entry reads as absent; filesystem behaviour is assumed (POSIX rename)",
@@ -67,8 +71,6 @@ NA = {
            "array data; the only structural clause (root axis order sourced from the declared output) is decided under C02-ROOT",
     "C05": "completeness of every pathfinder's result depends on data-dependent partition/greedy outcomes; no structural "
            "necessary condition beyond 'built through an auto-completing constructor', which no realistic break violates",
-    "C10": "round-trip equality of integer path encodings produced by pop/bisect arithmetic over runtime lists; nothing "
-           "structural to decide",
     "C11": "value semantics of a reshape/transpose/matmul plan over runtime shapes; the only structural clause (purity of "
            "the lru_cached planners) is decided under C13-MEMO",
     "C12": "conformance with numpy.einsum's grammar and broadcasting over all call forms is a specification question over "
